@@ -38,7 +38,7 @@ PROPS = {
             "rule": "one case per final state of LLS.tla (solver x lamda x z x proxg x G, 288 option records) x option variants (step sizes / preconditioner / rho given or defaulted, x0 given or not) x real/complex instance; all non-trivial",
             "assumptions": ["instances: A 3x2, G 2x2 dense or finite difference, g in {none, l1, l2^2, box}; optimum by enumeration of the smooth pieces (exact for these instances)", "iteration budgets CG 30, GM 4000, PDHG 6000, ADMM 400x10; tolerance 2e-3 relative on the documented objective"],
             "trusted": TLC_BASE + ["numpy.linalg.solve / lstsq for the piecewise KKT reference"]},
-    "C13": {"level": "model_checking", "engines": [("descent", "descent", "run")],
+    "C13": {"level": "model_checking", "engines": [("descent", "descent", "run"), ("splitting", "splitting", "run")],
             "rule": "exact tier: one case per TLC state of ProxGrad.tla (instance, iteration) replayed on GradientMethod, with the O(1/k) bound evaluated on the exact iterates; trace tier: one recorded GradientMethod / PDHG run per seeded problem with known minimiser; all non-trivial",
             "assumptions": ["exact tier: separable quadratics d in {(4,1),(2,2),(8,1),(4,0),(1,8)}, g in {0,l1,l2^2,box}, alpha in {1/L, 1/(2L)}, 3 updates", "trace tier: n 4..40, real/complex, Nesterov's worst-case quadratic, scalar and array-valued steps, strong-convexity acceleration; slack 1e-6",
                             "the Fejer-monotone distance is the M-norm of (x_{k-1}, u_k) (sigpy updates the dual first): see DESIGN.md C13"],
@@ -192,8 +192,8 @@ MANIFEST_TEXT["C14"] = {
     "technique": "TLA+ dispatch/assembly model (TLC, with negative control) + spec-to-code replay against an independent optimum"}
 
 MANIFEST_TEXT["C13"] = {
-    "text": "ProxGrad.tla models the plain proximal-gradient update on separable quadratics (ill-conditioned and rank-deficient) with g in {0, l1, l2^2, box} in exact rationals; TLC checks ObjectiveNonIncreasing, DistanceNonIncreasing, XstarIsFixed, EarlyStopOnlyAtFixedPoint, every state is replayed on GradientMethod and the O(1/k) gap bound is evaluated on the exact iterates. Accelerated GradientMethod and PrimalDualHybridGradient (scalar/array steps, strong-convexity acceleration) are run on larger real/complex problems built around a known minimiser; per-update ratios to the theoretical rate, objective increases, the M-norm distance to the saddle point, tau*sigma invariance, the saddle-point defect, final distance and in-place flags are validated by TLC against DescentTrace.tla.",
-    "design_ref": "DESIGN.md section 5 C13",
+    "text": "ProxGrad.tla models the plain proximal-gradient update on separable quadratics (ill-conditioned and rank-deficient) with g in {0, l1, l2^2, box} in exact rationals; TLC checks ObjectiveNonIncreasing, DistanceNonIncreasing, XstarIsFixed, EarlyStopOnlyAtFixedPoint, every state is replayed on GradientMethod and the O(1/k) gap bound is evaluated on the exact iterates. Accelerated GradientMethod and PrimalDualHybridGradient (scalar/array steps, strong-convexity acceleration) are run on larger real/complex problems built around a known minimiser; per-update ratios to the theoretical rate, objective increases, the M-norm distance to the saddle point, tau*sigma invariance, the saddle-point defect, final distance and in-place flags are validated by TLC against DescentTrace.tla. PDHG.tla adds the constant-step primal-dual update in exact rationals (scalar and per-component steps, zero / given / saddle starts, a = 0 components): TLC checks SaddleIsFixed, EarlyStopIsSaddle and FejerMonotone (M-norm of (previous primal, current dual)) on every instance and every state is replayed on PrimalDualHybridGradient (start at the saddle point must not move, caller arrays updated in place).",
+    "design_ref": "DESIGN.md section 5 C13, 13.6",
     "note": "Level is model_checking for the exact tier and the trace protocol; the rate clauses of the accelerated variants are numeric (exploration-grade) because theta = 1/sqrt(1+2*gamma*tau) is irrational. Trusted: numpy norms, problem construction around a known minimiser.",
     "technique": "TLA+ exact trajectories (TLC) + replay + trace validation of convergence-rate and Fejer conditions"}
 
